@@ -140,6 +140,46 @@ def clash_package(rnd, idx):
     return files, [inj_file], dict(kind="import-name clash", picks=[x[0] for x in picks], other_files=sorted(decls))
 
 
+def third_pkg_clash(rnd, idx):
+    """Types that reach the generated file only through a THIRD package: the providers live in svc, their result and
+    parameter types in two packages that are both called config and that no file of the user's package imports; the user's
+    package may also declare a package-level identifier config.  The generated file has to import both under distinct,
+    fresh names (C04 type spelling / no clash, C12 import aliases share the file scope)."""
+    name = "tp%d" % idx
+    base = "vscratch/%s" % name
+    pkgname = rnd.choice(["config", "config", "model", "types"])
+    pair = rnd.random() < 0.5                # one two-result provider or two providers
+    is_async = rnd.random() < 0.7
+    user_decl = rnd.choice([None, None, "func %s() int { return 1 }", "var %s = 3", "type %s int"])
+    files = {
+        "alpha/%s/c.go" % pkgname: "package %s\n\ntype Config struct{ V int }\n" % pkgname,
+        "beta/%s/c.go" % pkgname: "package %s\n\ntype Config struct{ V int }\n" % pkgname,
+    }
+    svc = 'package svc\n\nimport (\n\ta "%s/alpha/%s"\n\tb "%s/beta/%s"\n)\n\ntype Thing struct{ V int }\ntype Aux struct{ V int }\n\n' % (base, pkgname, base, pkgname)
+    if pair:
+        svc += "func NewPair() (*a.Config, *b.Config) { return &a.Config{V: 300}, &b.Config{V: 21} }\n"
+    else:
+        svc += "func NewA() *a.Config { return &a.Config{V: 300} }\nfunc NewB() (*b.Config, error) { return &b.Config{V: 21}, nil }\n"
+    svc += "func NewAux() *Aux { return &Aux{V: 0} }\n"
+    svc += "func NewThing(x *a.Config, y *b.Config, z *Aux) *Thing { return &Thing{V: x.V + y.V + z.V} }\n"
+    files["svc/svc.go"] = svc
+    w = (lambda e: "kessoku.Async(%s)" % e) if is_async else (lambda e: e)
+    provs = [w("kessoku.Provide(svc.NewPair)")] if pair else [w("kessoku.Provide(svc.NewA)"), w("kessoku.Provide(svc.NewB)")]
+    provs += [w("kessoku.Provide(svc.NewAux)"), "kessoku.Provide(svc.NewThing)"]
+    rnd.shuffle(provs)
+    reterr = not pair
+    call = "InitThing(%s)" % ("context.Background()" if is_async else "")
+    main = ("\tt, err := %s\n\tif err != nil || t.V != 321 {\n\t\tpanic(\"wrong result\")\n\t}\n" % call) if reterr else \
+           ("\tif t := %s; t.V != 321 {\n\t\tpanic(\"wrong result\")\n\t}\n" % call)
+    imps = ['\t"github.com/mazrean/kessoku"', '\t"%s/svc"' % base] + (['\t"context"'] if is_async else [])
+    files["k.go"] = ("package main\n\nimport (\n%s\n)\n\nvar _ = kessoku.Inject[*svc.Thing](\"InitThing\",\n%s)\n\nfunc main() {\n%s}\n"
+                     % ("\n".join(sorted(imps)), "".join("\t%s,\n" % x for x in provs), main))
+    if user_decl:
+        files[rnd.choice(["a_decl.go", "z_decl.go"])] = "package main\n\n" + (user_decl % pkgname) + "\n"
+    return files, ["k.go"], dict(kind="types of packages the user's package does not import, two of one name", run=True,
+                                  pkgname=pkgname, pair=pair, is_async=is_async, user_decl=user_decl)
+
+
 # one invocation over files of TWO packages that have the same package name (`kessoku api/k.go worker/k.go`): the
 # package-level names of each must be reserved when its injectors are generated
 def multi_pkg(order):
@@ -400,6 +440,9 @@ def _stage(seed, tier, key="N-x"):
     for i in range(16 if tier == "quick" else 120):
         files, targets, meta = clash_package(rnd, i)
         pkgs.append(("cl%d" % i, files, targets, None, meta))
+    for i in range(8 if tier == "quick" else 40):
+        files, targets, meta = third_pkg_clash(rnd, i)
+        pkgs.append(("tp%d" % i, files, targets, None, meta))
     for kid, (body, sig) in KNOWN.items():
         pkgs.append(("known_" + kid.replace("-", "_"), {"k.go": wrap(body)}, ["k.go"], kid, dict(kind="known finding reproducer", signature=sig)))
     def one(p):
